@@ -116,6 +116,7 @@ Definition op_outside (r : path) (op : fs_op) : Prop :=
   | Rmtree p => under r p = false /\ under p r = false
   | Stash _ => under r mem_slot = false
   | Unstash p => under r p = false /\ under r mem_slot = false
+  | Rewrite p => under r p = false
   end.
 
 Definition inr (r : path) (kv : path * entry) : bool := under r (fst kv).
@@ -165,7 +166,7 @@ Proof. intros r t H. destruct r; [discriminate | reflexivity]. Qed.
 
 Lemma apply_outside : forall r s op, op_outside r op -> filter (inr r) (apply_op s op) = filter (inr r) s.
 Proof.
-  intros r s op H. destruct op as [p t|p t|p|p|p|p|p]; simpl in *.
+  intros r s op H. destruct op as [p t|p t|p|p|p|p|p|p]; simpl in *.
   - apply filter_set_outside. exact H.
   - destruct (exists_b s p); [reflexivity | apply filter_set_outside; exact H].
   - apply filter_filter_absorb. intros [q e] Hq. unfold inr in Hq. simpl in *.
@@ -178,11 +179,12 @@ Proof.
   - destruct (lookup p s); [apply filter_set_outside; exact H | apply filter_remove_outside; exact H].
   - destruct H as [H1 H2]. destruct (lookup mem_slot s); [|reflexivity].
     rewrite filter_set_outside by exact H1. apply filter_remove_outside. exact H2.
+  - reflexivity.
 Qed.
 
 Lemma touched_outside : forall r s op p, op_outside r op -> In p (op_touched s op) -> under r p = false.
 Proof.
-  intros r s op p H Hin. destruct op as [q t|q t|q|q|q|q|q]; simpl in *.
+  intros r s op p H Hin. destruct op as [q t|q t|q|q|q|q|q|q]; simpl in *.
   - destruct Hin as [Hin|[]]. subst. exact H.
   - destruct (exists_b s q); [contradiction|]. destruct Hin as [Hin|[]]. subst. exact H.
   - destruct Hin as [Hin|[]]. subst. exact H.
@@ -195,6 +197,7 @@ Proof.
   - contradiction.
   - destruct H as [H1 H2]. destruct (exists_b s mem_slot); [|contradiction].
     destruct Hin as [Hin|[]]. subst. exact H1.
+  - destruct (exists_b s q); [|contradiction]. destruct Hin as [Hin|[]]. subst. exact H.
 Qed.
 
 Lemma exec_outside : forall r pl s, Forall (fun so => op_outside r (snd so)) pl ->
@@ -222,7 +225,7 @@ Qed.
 
 Lemma rebase_outside : forall r t op, under r t = false -> under t r = false -> op_outside r (rebase t op).
 Proof.
-  intros r t op H1 H2. destruct op as [p n|p n|p|p|p|p|p]; simpl; try (apply disjoint_app; assumption).
+  intros r t op H1 H2. destruct op as [p n|p n|p|p|p|p|p|p]; simpl; try (apply disjoint_app; assumption).
   - split; [apply disjoint_app; assumption|].
     destruct (under (t ++ p) r) eqn:E; [|reflexivity].
     rewrite (under_trans t (t ++ p) r (under_app t p) E) in H2. discriminate.
@@ -316,7 +319,7 @@ Definition rel_ok (c : config) (op : fs_op) : bool :=
   | Mkdirs q => forallb (fun q' => allowed c (root c ++ q')) (prefixes q)
   | Rmtree q => under (out_pkg c) q || under (core_fqn c) q
   | Stash _ => true
-  | Unstash q => allowed c (root c ++ q)
+  | Unstash q | Rewrite q => allowed c (root c ++ q)
   end.
 
 Lemma prefixes_allowed : forall c d x, (d = out_pkg c \/ d = core_fqn c) ->
@@ -330,7 +333,7 @@ Qed.
 
 Lemma rel_ok_at : forall c d op, (d = out_pkg c \/ d = core_fqn c) -> rel_ok c (rebase d op) = true.
 Proof.
-  intros c d op Hd. destruct op as [p t|p t|p|p|p|p|p]; simpl;
+  intros c d op Hd. destruct op as [p t|p t|p|p|p|p|p|p]; simpl;
     try (apply (allowed_under_d c d _ Hd); apply under_app).
   - apply prefixes_allowed. exact Hd.
   - destruct Hd as [Hd|Hd]; subst d; rewrite under_app; [reflexivity | apply orb_true_r].
@@ -374,12 +377,12 @@ Proof.
   unfold rel_out, rel_core, rel_of. split; apply filter_nonempty_id; assumption.
 Qed.
 
-Lemma rel_effects_ok : forall c st, wf_pkg c = true -> forallb (rel_ok c) (rel_effects c false st) = true.
+Lemma rel_effects_gen_ok : forall c st, wf_pkg c = true -> forallb (rel_ok c) (rel_effects_gen c false st) = true.
 Proof.
   intros c st Hwf. destruct (wf_pkg_rel c Hwf) as [Ho Hk].
   assert (HO : out_pkg c = out_pkg c \/ out_pkg c = core_fqn c) by (left; reflexivity).
   assert (HK : core_fqn c = out_pkg c \/ core_fqn c = core_fqn c) by (right; reflexivity).
-  destruct st; unfold rel_effects; rewrite ?Ho, ?Hk; try reflexivity;
+  destruct st; unfold rel_effects_gen; rewrite ?Ho, ?Hk; try reflexivity;
     try (apply rel_ok_map_at; assumption).
   - (* Setup *)
     cbn [negb]. rewrite !forallb_app. repeat (apply andb_true_iff; split).
@@ -402,6 +405,23 @@ Proof.
     apply rel_ok_at. exact HO.
 Qed.
 
+Lemma rel_ok_written : forall c op q, rel_ok c op = true -> In q (written_path op) -> allowed c (root c ++ q) = true.
+Proof.
+  intros c op q H Hin. destruct op; simpl in *; try contradiction; destruct Hin as [Hin|[]]; subst; exact H.
+Qed.
+
+(* post-processing only rewrites files that an emitter wrote: every target is an allowed path *)
+Lemma rel_effects_ok : forall c st, wf_pkg c = true -> forallb (rel_ok c) (rel_effects c false st) = true.
+Proof.
+  intros c st Hwf. destruct st; try (apply rel_effects_gen_ok; exact Hwf).
+  unfold rel_effects, post_targets. apply forallb_forall. intros op Hop. apply in_map_iff in Hop.
+  destruct Hop as [q [E Hq]]. subst. simpl.
+  apply filter_In in Hq. destruct Hq as [Hq _]. apply in_flat_map in Hq. destruct Hq as [op [Hop Hq]].
+  apply in_flat_map in Hop. destruct Hop as [st [_ Hop]].
+  pose proof (rel_effects_gen_ok c st Hwf) as H. rewrite forallb_forall in H.
+  eapply rel_ok_written; [apply H; exact Hop | exact Hq].
+Qed.
+
 Lemma sunder_split : forall r p, sunder r p = true -> exists x, p = r ++ x /\ x <> [].
 Proof.
   intros r p H. unfold sunder in H. apply andb_true_iff in H. destruct H as [Hu Hn].
@@ -412,9 +432,10 @@ Qed.
 Lemma touched_ok : forall c s op p, rel_ok c op = true ->
   In p (op_touched s (rebase (root c) op)) -> sunder (root c) p = true -> allowed c p = true.
 Proof.
-  intros c s op p Hok Hin Hs. destruct op as [q t|q t|q|q|q|q|q]; simpl in *;
+  intros c s op p Hok Hin Hs. destruct op as [q t|q t|q|q|q|q|q|q]; simpl in *;
     [| | | | |contradiction|
-     destruct (exists_b s mem_slot); [destruct Hin as [Hin|[]]; subst; exact Hok | contradiction]].
+     destruct (exists_b s mem_slot); [destruct Hin as [Hin|[]]; subst; exact Hok | contradiction]|
+     destruct (exists_b s (root c ++ q)); [destruct Hin as [Hin|[]]; subst; exact Hok | contradiction]].
   - destruct Hin as [Hin|[]]. subst. exact Hok.
   - destruct (exists_b s (root c ++ q)); [contradiction|]. destruct Hin as [Hin|[]]. subst. exact Hok.
   - destruct Hin as [Hin|[]]. subst. exact Hok.
@@ -625,7 +646,7 @@ Proof.
   - simpl.
     + apply Forall_forall. intros [st' op'] Hin. apply in_map_iff in Hin. destruct Hin as [op'' [E Hin]].
       inversion E; subst. simpl. apply in_app_or in Hin. destruct Hin as [Hin|Hin].
-      * destruct op as [p t|p t|p|p|p|p|p]; simpl in Ecut.
+      * destruct op as [p t|p t|p|p|p|p|p|p]; simpl in Ecut.
         -- destruct (base_matches name p); inversion Ecut; subst; contradiction.
         -- destruct (negb (exists_b s p) && base_matches name p); inversion Ecut; subst; contradiction.
         -- discriminate.
@@ -635,6 +656,7 @@ Proof.
         -- discriminate.
         -- discriminate.
         -- destruct (exists_b s mem_slot && base_matches name p); inversion Ecut; subst; contradiction.
+        -- discriminate.
       * pose proof (Hlog st') as HL. rewrite Forall_forall in HL. apply HL. exact Hin.
   - simpl. constructor; [exact H1 | apply IH; exact H2].
 Qed.
@@ -891,7 +913,7 @@ Qed.
 Lemma apply_paths : forall s op p, In p (paths (apply_op s op)) ->
   In p (paths s) \/ In p (op_touched s op) \/ p = mem_slot.
 Proof.
-  intros s op p H. destruct op as [q t|q t|q|q|q|q|q]; simpl in *.
+  intros s op p H. destruct op as [q t|q t|q|q|q|q|q|q]; simpl in *.
   - apply paths_set in H. destruct H as [H|H]; [right; left; left; auto | left; exact H].
   - destruct (exists_b s q); [left; exact H|].
     apply paths_set in H. destruct H as [H|H]; [right; left; left; auto | left; exact H].
@@ -906,6 +928,7 @@ Proof.
   - unfold exists_b. destruct (lookup mem_slot s).
     + apply paths_set in H. destruct H as [H|H]; [right; left; left; auto | left; eapply paths_filter; exact H].
     + left. exact H.
+  - left. exact H.
 Qed.
 
 Lemma exec_paths : forall pl s p, In p (paths (exec s pl)) ->
@@ -952,3 +975,11 @@ Qed.
 Lemma cli_defaults : forall c a, a_force a = None -> a_no_postprocess a = None ->
   force (cli_config c a) = false /\ post (cli_config c a) = true /\ core_pkg (cli_config c a) <> None.
 Proof. intros c a H1 H2. simpl. rewrite H1, H2. repeat split. discriminate. Qed.
+
+(* ---------- post-processing targets ---------- *)
+Theorem post_targets_allowed : forall c q,
+  valid_pkgs c = true -> In q (post_targets c false) -> allowed c (root c ++ q) = true.
+Proof.
+  intros c q Hv Hq. pose proof (rel_effects_ok c Post (valid_wf c Hv)) as H. rewrite forallb_forall in H.
+  apply (H (Rewrite q)). simpl. apply in_map. exact Hq.
+Qed.
